@@ -20,7 +20,7 @@ CHECKS = {
    ref="DESIGN.md section 3, C03"),
  "C04": dict(
    technique="property-based testing (proptest, type-directed generation); oracle = value shape + independent type inference on the value",
-   text="For accepted generated programs over int, bool, type, function, dependent-function and computed types, the value reached by gram's step loop is compared with the reported type: by shape, and by inferring a type for the value with the independent checker and testing convertibility with the reported type. Sampled.",
+   text="For accepted generated programs over int, bool, type, function, dependent-function and computed types, the value reached by gram's step loop is compared with the reported type: by shape, and by inferring a type for the value with the independent checker and testing convertibility with the reported type. A directed family (an un-annotated parameter against a written type that mentions a later binder which disappears under normalisation, the function applied at the right and at a wrong type) and programs in which a local function captures a parameter before its type is fixed cover the scoping of hole solutions. Sampled.",
    note="Trusts R-core; values / types with unresolved holes are outside its domain.",
    ref="DESIGN.md section 3, C04"),
  "C05": dict(
@@ -35,7 +35,7 @@ CHECKS = {
    ref="DESIGN.md section 3, C06"),
  "C07": dict(
    technique="bounded-exhaustive enumeration + property-based testing (proptest) against a chart parser that reads grammar.y",
-   text="Differential testing of parse() against a general CFG recogniser with derivation counting that works on the productions read from /repo/grammar.y: every token string up to length 4 (quick) / 5 (thorough) over the 28 token kinds, random longer token strings, proptest-generated sentences with every former in every position and redundant parentheses, and one/two-token mutations of sentences. For sentences gram's tree must equal the unique derivation with the three chain kinds left-associated and lets flattened; every string examined must have at most one derivation. Exhaustive for short strings, sampled beyond.",
+   text="Differential testing of parse() against a general CFG recogniser with derivation counting that works on the productions read from /repo/grammar.y: every token string up to length 4 (quick) / 5 (thorough) over the 28 token kinds, random longer token strings, proptest-generated sentences with every former in every position and redundant parentheses, one/two-token mutations of sentences, and sentences with a matching pair of brackets dropped. For sentences gram's tree must equal the unique derivation with the three chain kinds left-associated and lets flattened; every string examined must have at most one derivation. Exhaustive for short strings, sampled beyond.",
    note="Trusts the harness's grammar reader, chart parser and derivation-to-tree mapping (self-checked: printing a generated tree and reading it back with the chart parser must give the same tree, else exit 2).",
    ref="DESIGN.md section 3, C07"),
  "C08": dict(
@@ -60,7 +60,7 @@ CHECKS = {
    ref="DESIGN.md section 3, C11"),
  "C12": dict(
    technique="property-based testing (proptest): hole punching into well-typed terms, solution invariants checked against NbE conversion",
-   text="Patterns are cut from generated well-typed closed terms by replacing 1-4 subterms at arbitrary depths by holes with shifts that make them solvable, scope-escaping or non-linear, and unified (both orders) with the original, a reduct, an unrelated term or another pattern, with and without a definitions context; near misses of the term (one point changed, a group one definition longer or shorter with the body at the same index; with or without holes) so that a wrong `yes` is visible; occurs-check shapes and two-call histories (a hole solved by a term containing a hole that a later call solves) are generated too. Whenever unify returns true: solved cells are acyclic, every solution's free indices fit the scope of every occurrence of its hole, both sides with the solutions read in are convertible by an independent NbE, and the context keeps its length. Sampled.",
+   text="Patterns are cut from generated well-typed closed terms by replacing 1-4 subterms at arbitrary depths by holes with shifts that make them solvable, scope-escaping or non-linear, and unified (both orders) with the original, a reduct, an unrelated term or another pattern, with and without a definitions context; the same instance read through holes that are solved already; near misses of the term (one point changed, a group one definition longer or shorter with the body at the same index; with or without holes) so that a wrong `yes` is visible; occurs-check shapes and two-call histories (a hole solved by a term containing a hole that a later call solves) are generated too. Whenever unify returns true: solved cells are acyclic, every solution's free indices fit the scope of every occurrence of its hole, both sides with the solutions read in are convertible by an independent NbE, and the context keeps its length. Sampled.",
    note="Nothing is demanded when unify returns false. Two recorded findings are matched by signature (hole copied by open during the call - hook counter; scope escape through a later-solved inner hole - only in the two-call part).",
    ref="DESIGN.md section 3, C12"),
  "C13": dict(
@@ -85,7 +85,7 @@ CHECKS = {
    ref="DESIGN.md section 3, C16"),
  "C17": dict(
    technique="scaling measurement over generated input families on a deterministic work counter (hook)",
-   text="67 input families (among them three-operand application, product and sum chains nested in head, middle or last operand with the other operands parenthesised or not) x 5 damage variants with n doubling from 6 to 1536 (quick) / 6144 (thorough), plus proptest-generated random compositions: the number of parsing-function calls (hook in cache_check!) must stay below 250 per token, the calls of the passes over the parsed term (second hook) below 40 per token, and the per-token rate must not rise on two successive doublings; CPU time growing >12x on two successive doublings and hangs (watchdog, attributed to the announced input) are violations too. Decides linearity of the memoised parser on the explored families; says nothing about families not listed.",
+   text="72 input families (among them groups nested as arguments / operands / conditions / definitions with a stray token before each closing bracket, and three-operand application, product and sum chains nested in head, middle or last operand with the other operands parenthesised or not) x 5 damage variants with n doubling from 6 to 1536 (quick) / 6144 (thorough), plus proptest-generated random compositions: the number of parsing-function calls (hook in cache_check!) must stay below 250 per token, the calls of the passes over the parsed term (second hook) below 40 per token, the diagnostics returned below 3 per token (the error path is work too), and the per-token rate must not rise on two successive doublings; CPU time growing >12x on two successive doublings and hangs (watchdog, attributed to the announced input) are violations too. Decides linearity of the memoised parser on the explored families; says nothing about families not listed.",
    note="Needs the parser hook (feature verif). The constant was calibrated on the pinned tree (max observed about 60 calls per token).",
    ref="DESIGN.md section 3, C17"),
  "C18": dict(
@@ -95,7 +95,7 @@ CHECKS = {
    ref="DESIGN.md section 3, C18"),
  "C19": dict(
    technique="property-based testing (proptest) with metamorphic relations between a program and its rewrites",
-   text="Metamorphic testing without any reference semantics: accepted generated programs (a quarter annotation-erased) are rewritten 1-4 times (consistent renaming to ASCII / keyword-like / non-ASCII names, redundant parentheses, unused definitions wrapped around a node or inserted into a group, naming a node by a definition, annotated identity applied, `if true then e else e`, swapping independent adjacent function definitions; parentheses also around the tail of a group); the rewritten program must be accepted, gram's own conversion must judge the two reported types equal, and the step loop must end the same way (same literal / kind; identical value for parentheses-only rewrites); a sample is compared through `gram check` / `gram run`. Guards against errors shared by the other checks' reference models and the code. Sampled.",
+   text="Metamorphic testing without any reference semantics: accepted generated programs (a quarter annotation-erased) are rewritten 1-4 times (consistent renaming to ASCII / keyword-like / non-ASCII names, redundant parentheses, unused definitions wrapped around a node or inserted into a group, naming a node by a definition, annotated identity applied, `if true then e else e`, swapping independent adjacent function definitions; parentheses also around the tail of a group; `if true then T else D` with its own dead branch at every base-type annotation); the rewritten program must be accepted, gram's own conversion must judge the two reported types equal, and the step loop must end the same way (same literal / kind; identical value for parentheses-only rewrites); a sample is compared through `gram check` / `gram run`. Guards against errors shared by the other checks' reference models and the code. Sampled.",
    note="Value-changing rewrites are not applied at the root of a definition (syntactic value-ness matters to the definition-order check); one recorded finding (un-annotated definition of a term with unsolved holes) is matched by that shape.",
    ref="DESIGN.md section 3, C19"),
 }
